@@ -80,6 +80,12 @@ pub fn look_of(block: &[u8], sector: u64, version: u32) -> (&'static str, u64) {
 }
 
 /// Abstract contents of a data-area write starting at `sector`.
+/// A byte count as a number of blocks; a count that is not a whole number of blocks maps to a
+/// value no block total can equal (the counters are compared exactly).
+pub fn blocks_exact(bytes: u64) -> u64 {
+    if bytes % L::BLOCK as u64 == 0 { bytes / L::BLOCK as u64 } else { 1_000_000 + (bytes / L::BLOCK as u64) % 1_000_000 }
+}
+
 pub fn classify_data(sector: u64, data: &[u8], version: u32, gens: &GenTable) -> Vec<Value> {
     let nb = data.len() / L::BLOCK;
     let mut out = Vec::with_capacity(nb);
@@ -151,7 +157,7 @@ pub fn meta_value(block: &[u8]) -> Value {
     }
     match L::decode_meta(block) {
         Some(m) => json!({"z": false, "bad": false, "gen": m.generation, "ver": m.version,
-                          "recs": m.total_records, "size": m.total_size / L::BLOCK as u64}),
+                          "recs": m.total_records, "size": blocks_exact(m.total_size)}),
         None => json!({"z": false, "bad": true, "gen": 0, "ver": 0, "recs": 0, "size": 0}),
     }
 }
